@@ -80,8 +80,10 @@ def realise(m):
     tries, handlers = [], []
     for (s, e, hs) in m["tries"]:
         typed = [("Ljava/lang/Exception;", h // 2) for h in hs[:-1]]
-        handlers.append((typed, hs[-1] // 2))
-        tries.append((s // 2, (e + 1 - s) // 2, len(handlers) - 1))
+        entry = (typed, hs[-1] // 2)
+        if entry not in handlers:            # try ranges with the same catch list share one encoded_catch_handler, as compilers emit them
+            handlers.append(entry)
+        tries.append((s // 2, (e + 1 - s) // 2, handlers.index(entry)))
     return bytes(out), tries, handlers
 
 
@@ -413,6 +415,8 @@ def random_method(rnd, aligned=True):
         s = rnd.randrange(cur, n)
         e = rnd.randrange(s, min(n, s + 6))
         hs = [offs[rnd.randrange(n)] for _ in range(rnd.randrange(1, 3))]
+        if tries and rnd.random() < 0.35:
+            hs = list(tries[-1][2])          # the same catch list as the previous range (one shared handler entry)
         tries.append([offs[s], offs[e] + kinds[e][1] - 1, hs])
         cur = e + 1
     return dict(ins=ins, tries=tries, endoff=at)
